@@ -75,9 +75,57 @@ const (
 type vStoreCfg struct {
 	nickNullable bool
 	fk           int
+	// fkToDept: boss references a second store ("vdepts") instead of vemps
+	fkToDept bool
 }
 
-func verifNewEmpStore(cfg vStoreCfg) *vEmpStore {
+// ---- target store for foreign keys ----
+
+const (
+	vDeptType = "vdepts"
+	vFLabel   = "label"
+	vFEmps    = "emps"
+)
+
+type vDept struct {
+	Id    string
+	Label string
+}
+
+func (e *vDept) GetId() string         { return e.Id }
+func (e *vDept) SetId(id string)       { e.Id = id }
+func (e *vDept) GetEntityType() string { return vDeptType }
+
+type vDeptStrategy struct{}
+
+func (vDeptStrategy) NewEntity() *vDept { return new(vDept) }
+func (vDeptStrategy) FillEntity(e *vDept, b *TypedBucket) {
+	e.Label = b.GetStringOrError(vFLabel)
+}
+func (vDeptStrategy) PersistEntity(e *vDept, ctx *PersistContext) {
+	ctx.SetString(vFLabel, e.Label)
+}
+
+type vDeptStore struct {
+	*BaseStore[*vDept]
+	symEmps EntitySetSymbol
+}
+
+func verifNewDeptStore() *vDeptStore {
+	def := StoreDefinition[*vDept]{
+		EntityType:      vDeptType,
+		EntityStrategy:  vDeptStrategy{},
+		EntityNotFoundF: func(id string) error { return NewNotFoundError(vDeptType, "id", id) },
+		BasePath:        []string{vRootPath},
+	}
+	s := &vDeptStore{BaseStore: NewBaseStore(def)}
+	s.InitImpl(s)
+	s.AddIdSymbol("id", ast.NodeTypeString)
+	s.AddSymbol(vFLabel, ast.NodeTypeString)
+	return s
+}
+
+func verifNewEmpStore(cfg vStoreCfg, dept *vDeptStore) *vEmpStore {
 	def := StoreDefinition[*vEmp]{
 		EntityType:      vEmpType,
 		EntityStrategy:  vEmpStrategy{},
@@ -97,8 +145,14 @@ func verifNewEmpStore(cfg vStoreCfg) *vEmpStore {
 	}
 	s.symRoles = s.AddSetSymbol(vFRoles, ast.NodeTypeString)
 	s.idxRoles = s.AddSetIndex(s.symRoles)
-	s.symBoss = s.AddFkSymbol(vFBoss, s)
-	s.symReports = s.AddFkSetSymbol(vFReports, s)
+	if cfg.fkToDept {
+		s.symBoss = s.AddFkSymbol(vFBoss, dept)
+		dept.symEmps = dept.AddFkSetSymbol(vFEmps, s)
+		s.symReports = dept.symEmps
+	} else {
+		s.symBoss = s.AddFkSymbol(vFBoss, s)
+		s.symReports = s.AddFkSetSymbol(vFReports, s)
+	}
 	switch cfg.fk {
 	case vFkIndexNullable:
 		s.AddNullableFkIndex(s.symBoss, s.symReports)
@@ -115,17 +169,20 @@ func verifNewEmpStore(cfg vStoreCfg) *vEmpStore {
 }
 
 type vEnv struct {
-	raw *bbolt.DB
-	db  *DbImpl
-	emp *vEmpStore
+	raw  *bbolt.DB
+	db   *DbImpl
+	emp  *vEmpStore
+	dept *vDeptStore
 }
 
 func verifNewEnv(cfg vStoreCfg) *vEnv {
 	raw := verifrt.OpenDB()
 	env := &vEnv{raw: raw, db: &DbImpl{rootBucket: vRootPath, db: raw}}
-	env.emp = verifNewEmpStore(cfg)
+	env.dept = verifNewDeptStore()
+	env.emp = verifNewEmpStore(cfg, env.dept)
 	err := env.db.Update(nil, func(ctx MutateContext) error {
 		holder := &vErrHolder{}
+		env.dept.InitializeIndexes(ctx.Tx(), holder)
 		env.emp.InitializeIndexes(ctx.Tx(), holder)
 		return holder.err
 	})
